@@ -41,10 +41,15 @@ Definition rm_boot_effect (c : config) (now : Z) (fans : list (N * (bytes * N)))
                    && rm_answers fans n
                 then apply_update now UResponse n else n) nodes.
 
-Definition rm_pass (c : config) (now : Z) (answering fans : list (N * (bytes * N))) (nodes : list node)
+(* [booted]: the application ran Server.Bootstrap itself less than 30 minutes ago (Server.shouldBootstrap is false):
+   the maintainer goes straight to its pass *)
+Definition rm_boot_asked (c : config) (booted : bool) (nodes : list node) : list node :=
+  if booted then [] else rm_boot c nodes.
+
+Definition rm_pass (c : config) (now : Z) (booted : bool) (answering fans : list (N * (bytes * N))) (nodes : list node)
   : list phase * list node :=
   pass id_secure_impl c now (rm_answers answering) (refresh_answering id_secure_impl c now (rm_answers fans))
-       (rm_boot_effect c now fans nodes).
+       (if booted then nodes else rm_boot_effect c now fans nodes).
 
 (* tag 0 ping / 1 refresh / 2 break / 3 done *)
 Definition rm_phase_view (p : phase) : N * (nat * list node) :=
